@@ -1,7 +1,7 @@
 # -*- coding: utf-8 -*-
 
 import json
-from typing import Iterable, Optional, Union
+from typing import Iterable, List, Optional, Union
 
 from .._utils import classdispatch
 from . import ast as _ast
@@ -98,7 +98,18 @@ class ASTPrinter:
         return "$%s" % node.name.value
 
     def print_document(self, node: _ast.Document) -> str:
-        return _join(map(self, node.definitions), "\n\n") + "\n"
+        definitions = []  # type: List[str]
+        for definition in map(self, node.definitions):
+            # A short form query following a definition without a body would
+            # be read back as the body of that definition.
+            if (
+                definition.startswith("{")
+                and definitions
+                and not definitions[-1].endswith("}")
+            ):
+                definition = "query " + definition
+            definitions.append(definition)
+        return _join(definitions, "\n\n") + "\n"
 
     def print_operation_definition(self, node: _ast.OperationDefinition) -> str:
         op = node.operation
